@@ -572,6 +572,9 @@ func (g *bridgeGen) plan(mode string) (*BlockPlan, error) {
 	if rare(3) || (mode == "addr" && rare(2)) {
 		for k := 1 + r.Intn(3); k > 0; k-- {
 			addr, net, kind := g.newAddress()
+			if n := len(br.Withdraws); n > 0 && rare(3) { // the same address as the request before it (valid or not) in one batch
+				addr, net, kind = br.Withdraws[n-1].Address, wds[n-1]["net"].(string), wds[n-1]["kind"].(string)
+			}
 			id := g.wdNext
 			g.wdNext++
 			amt, price := uint64(10000+r.Intn(90000)), uint64(1+r.Intn(40))
@@ -944,6 +947,18 @@ func (g *bridgeGen) processTx(vc *voteCtx, st *project.BridgeState) (*brTx, erro
 		}
 		if rare(12) && len(st.Wd) > 0 {
 			ids = append(ids, st.Wd[r.Intn(len(st.Wd))].ID) // possibly a non-pending or duplicate id
+		}
+		if rare(4) { // deliberately: a withdrawal in a terminal or processing state whose address is fine (everything else about the
+			// transaction is right, only the status stands against it) - e.g. a cancellation approved a moment ago
+			var late []int64
+			for _, w := range st.Wd {
+				if (w.Status == "canceled" || w.Status == "paid" || w.Status == "processing") && scriptOf[w.Addr] != nil {
+					late = append(late, w.ID)
+				}
+			}
+			if len(late) > 0 && len(ids) < 3 {
+				ids = append(ids, late[r.Intn(len(late))])
+			}
 		}
 		if len(ids) == 0 {
 			return nil, nil
